@@ -529,6 +529,36 @@ pub fn run(ctx: &Ctx) -> Report {
         rep.class("root:pawn-ending(depth 8-11)");
         search_case(ctx, &format!("position fen {}", p.to_fen()), &p.to_fen(), &format!("go depth {n}"), Some(*n), Duration::from_secs(300), rep)
     });
+    // the fifty-move clock at 99 at the root and a large depth limit: every depth up to N must
+    // still be reported
+    let edge = ctx.tier.pick(64, 1200) / ctx.shard_count() as u32;
+    run_prop(ctx, "c14-clock-edge", edge, 20, (gen::synth_strategy(), 12u64..=40), &mut rep, |(ent, n), rep| {
+        let mut e = Entropy::new(ent);
+        let mut p = Pos::empty();
+        let wk = e.pick(64);
+        let c: Vec<usize> = (0..64).filter(|&s| (o::file_of(s) - o::file_of(wk)).abs().max((o::rank_of(s) - o::rank_of(wk)).abs()) > 1).collect();
+        p.sq[wk] = o::mk(true, o::K);
+        p.sq[c[e.pick(c.len())]] = o::mk(false, o::K);
+        for _ in 0..1 + e.pick(3) {
+            let t = [o::R, o::N, o::B, o::Q, o::R][e.pick(5)];
+            let free: Vec<usize> = (0..64).filter(|&s| p.sq[s] == 0).collect();
+            p.sq[free[e.pick(free.len())]] = o::mk(e.pick(2) == 0, t);
+        }
+        p.wtm = e.pick(2) == 0;
+        p.hmc = 99;
+        p.fmn = 100 + e.pick(40) as u32;
+        if p.is_valid_start().is_err() || p.legal_moves().is_empty() || p.legal_moves().len() > 30 {
+            return Ok(());
+        }
+        // no capture at the root (a capture resets the clock and opens a real tree below it):
+        // every root move then runs into the draw rule at once and any depth is cheap
+        if p.legal_moves().iter().any(|m| m.is_capture()) {
+            rep.class("skipped:capture-at-the-root");
+            return Ok(());
+        }
+        rep.class("root:fifty-move-clock-99-no-capture(depth 12-40)");
+        search_case(ctx, &format!("position fen {}", p.to_fen()), &p.to_fen(), &format!("go depth {n}"), Some(*n), Duration::from_secs(300), rep)
+    });
     // roots from mate nets, either side to move (forced wins and forced losses at the root)
     let nets = ctx.tier.pick(160, 3200) / ctx.shard_count() as u32;
     run_prop(ctx, "c14-nets", nets, 20, (gen::synth_strategy(), 2u64..=5), &mut rep, |(ent, n), rep| {
@@ -640,5 +670,5 @@ pub fn replay(ctx: &Ctx, case: &Value) -> Report {
 }
 
 pub const LEVEL: &str = "exploration";
-pub const RULE: &str = "searches on the real engine binary: positions with >= 1 legal move (startpos / corpus / synthesised / pattern starts incl. mate nets, plus up to 40 plies of play) x 'go depth N' alone (N = 1..5; 5 only with <= 25 legal moves; plus N = 40 and 255 on a forced-mate position), roots from constructed mate nets with either side to move (forced wins and forced losses), searches during which isready is sent 2000 times (every stdout line must be an info line, readyok or the bestmove), game-flow sessions (6-10 consecutive depth-3/4 searches along a game in ONE engine process: the engine's own move, then a generated reply, so later searches meet cache entries of earlier ones) and, for the ordering and PV clauses, 'go nodes {50..100000}' / 'go movetime {5..300}'. Oracle: every stdout line starting with 'info' parses as UCI info (standard keys in any order, well-formed integers, moves in coordinate notation, score cp|mate); lines carrying 'depth' have depths exactly 1,2,...,k, each with a score and a non-empty pv that replays as legal moves from the searched position on the rules oracle; under 'go depth N' alone k == N before the bestmove. Game flows mix the go kinds (depth / game clock 2 s a side / movetime 80 / nodes 30000), and in half of the steps the opponent's reply is the move the engine expected (second pv move), so that the next root is a position the cache already holds. One long search (movetime 7 s quick / 40 s thorough on a middlegame position, so that single iterations last seconds) and depth-only searches to depth 8-11 of pawn endings (the score jumps by a queen late in the iteration sequence) are judged like all others. A soak session (one engine process, 26 quick / 260 thorough searches of 1.2 million nodes each on quiet endgames, where nearly every node stores a cache entry, every one of them judged, then six depth-3 searches of positions not seen before) covers long-lived processes with a full cache. A missing bestmove is C09's subject and only counted here. Non-trivial = depth-only search with N >= 2, or a limited search with >= 2 iteration reports; distinct by (position, go command).";
+pub const RULE: &str = "searches on the real engine binary: positions with >= 1 legal move (startpos / corpus / synthesised / pattern starts incl. mate nets, plus up to 40 plies of play) x 'go depth N' alone (N = 1..5; 5 only with <= 25 legal moves; plus N = 40 and 255 on a forced-mate position), roots from constructed mate nets with either side to move (forced wins and forced losses), searches during which isready is sent 2000 times (every stdout line must be an info line, readyok or the bestmove), game-flow sessions (6-10 consecutive depth-3/4 searches along a game in ONE engine process: the engine's own move, then a generated reply, so later searches meet cache entries of earlier ones) and, for the ordering and PV clauses, 'go nodes {50..100000}' / 'go movetime {5..300}'. Oracle: every stdout line starting with 'info' parses as UCI info (standard keys in any order, well-formed integers, moves in coordinate notation, score cp|mate); lines carrying 'depth' have depths exactly 1,2,...,k, each with a score and a non-empty pv that replays as legal moves from the searched position on the rules oracle; under 'go depth N' alone k == N before the bestmove. Game flows mix the go kinds (depth / game clock 2 s a side / movetime 80 / nodes 30000), and in half of the steps the opponent's reply is the move the engine expected (second pv move), so that the next root is a position the cache already holds. One long search (movetime 7 s quick / 40 s thorough on a middlegame position, so that single iterations last seconds) and depth-only searches to depth 8-11 of pawn endings (the score jumps by a queen late in the iteration sequence) are judged like all others. Roots with the fifty-move clock at 99 and no capture available (every root move runs into the draw rule at once) are searched with depth limits of 12-40. A soak session (one engine process, 26 quick / 260 thorough searches of 1.2 million nodes each on quiet endgames, where nearly every node stores a cache entry, every one of them judged, then six depth-3 searches of positions not seen before) covers long-lived processes with a full cache. A missing bestmove is C09's subject and only counted here. Non-trivial = depth-only search with N >= 2, or a limited search with >= 2 iteration reports; distinct by (position, go command).";
 pub const ASSUMPTIONS: &[&str] = &["the rules oracle replays the PVs", "whether a reported mate distance is right is not asserted (the statement does not fix it)"];
